@@ -166,6 +166,7 @@ def run(ctx) -> None:
     rep.rule("C11.R3", "a node's outputs are written to the state only after its executor returned normally", floor=4)
     rep.rule("C11.R4", "nested runs and map propagate the original exception object", floor=6)
     rep.rule("C11.R5", "the error path filters partial values with the non-raising default policy", floor=3)
+    rep.rule("C11.R6", "the runners never inject an exception of their own into node results (no cancellation, no time-outs): the first error of a step is an exception a node raised", floor=40)
 
     reach = _reach_user(db)
     # ---- R1 ---------------------------------------------------------------
@@ -260,6 +261,26 @@ def run(ctx) -> None:
                             if any(isinstance(s, ast.Attribute) and s.attr == "partial_state" for s in srcs):
                                 okv = True
         rep.add("C11.R2", f"{m.qname}:failed-values", okv, f"{m.module.rel}:{h.lineno}", "FAILED values = filter_outputs(carried partial state)" if okv else "FAILED result values do not derive from the carried partial state")
+
+    # ---- R6 ---------------------------------------------------------------
+    INJECTORS = {"asyncio.wait_for", "asyncio.timeout", "asyncio.timeout_at"}
+    n6 = 0
+    for f in db.funcs_in("runners"):
+        n6 += 1
+        bad = []
+        for c in db.calls_in(f):
+            d = dotted(c.func) or ""
+            if d in INJECTORS:
+                bad.append((c, f"{d}(...)"))
+            elif isinstance(c.func, ast.Attribute) and c.func.attr == "cancel" and not c.args:
+                t = db.type_of(c.func.value, f)
+                if t is None or not t.classes():
+                    bad.append((c, f"{src(c.func)}()"))
+        if bad:
+            c, what = bad[0]
+            rep.bad("C11.R6", f"{f.qname}:{what}", f"{f.module.rel}:{c.lineno}", "a task of the run can be cancelled / timed out by the runner: the CancelledError or TimeoutError it produces competes with the node's own exception for 'first error of the step' and is not an Exception the templates unwrap")
+        else:
+            rep.ok("C11.R6", f"{f.qname}", f.loc(), "no cancellation or time-out of run tasks")
 
     # ---- R5 ---------------------------------------------------------------
     fo = db.func("runners._shared.helpers.filter_outputs")
@@ -436,6 +457,7 @@ TA = "src/hypergraph/runners/_shared/template_async.py"
 SR = "src/hypergraph/runners/sync/runner.py"
 AR = "src/hypergraph/runners/async_/runner.py"
 VARIANTS = [
+    Variant("async-step-fail-fast-cancel", AS, replace_once("    tasks = [execute_one(node) for node in ready_nodes]\n    results = await asyncio.gather(*tasks, return_exceptions=True)", "    tasks = [asyncio.ensure_future(execute_one(node)) for node in ready_nodes]\n    if len(tasks) > 1:\n        _, pending = await asyncio.wait(tasks, return_when=asyncio.FIRST_EXCEPTION)\n        for task in pending:\n            task.cancel()\n    results = await asyncio.gather(*tasks, return_exceptions=True)"), {"C11.R6"}),
     Variant("sync-superstep-wrap-runtimeerror", SS, replace_once("                    raise ExecutionError(e, new_state) from e", "                    raise RuntimeError(f\"node {node.name} failed\") from e"), {"C11.R1"}),
     Variant("runner-swallow-generic", SR, replace_once("            except ExecutionError:\n                raise\n            except Exception as e:\n                raise ExecutionError(e, state) from e", "            except ExecutionError:\n                raise\n            except Exception:\n                break"), {"C11.R1"}),
     Variant("async-runner-carrier-without-cause", AR, replace_once("                    raise ExecutionError(e, state) from e", "                    raise ExecutionError(RuntimeError(str(e)), state) from e"), {"C11.R1"}),
